@@ -139,16 +139,21 @@ def native_replay(files, cases_by_pkg, tmp):
 
 
 def solver_crosscheck(spec, jobs, ovp, tmp):
-    """Re-runs the first job single-process with the solver transcript recorded and
+    """Re-runs a spread of jobs single-process with the solver transcript recorded and
     replays that transcript on z3-new and cvc5."""
     import crosscheck
     logdir = os.path.join(tmp, "smtlog")
     os.makedirs(logdir, exist_ok=True)
-    j = dict(jobs[0])
-    j["id"] = "crosscheck"
-    j["max_paths"] = 400
+    # a spread of up to six jobs (first, last and evenly in between), each cut at 1500 paths
+    picks = sorted({round(k * (len(jobs) - 1) / 5) for k in range(6)}) if len(jobs) > 1 else [0]
+    xjobs = []
+    for n, k in enumerate(picks):
+        j = dict(jobs[k])
+        j["id"] = "crosscheck-%d" % n
+        j["max_paths"] = 1500
+        xjobs.append(j)
     jp = os.path.join(tmp, "xc_jobs.json")
-    json.dump({"jobs": [j]}, open(jp, "w"))
+    json.dump({"jobs": xjobs}, open(jp, "w"))
     subprocess.run([os.path.join(VERIF, "bin", "symx"), "-repo", REPO, "-overlay", ovp, "-jobs", jp, "-out",
                     os.path.join(tmp, "xc_out.json"), "-workers", "1"], env=dict(GOENV, SYMX_SMTLOG=logdir, SYMX_NOSHARE=""),
                    capture_output=True, text=True)
